@@ -437,6 +437,12 @@ class Interp:
         if isinstance(v, Obj):
             if "__bool__" in v.attrs:
                 return bool(v.attrs["__bool__"])
+            k = self.obj_class(v)
+            if k is not None and getattr(self, "honor_new", False):
+                for dn in ("__bool__", "__len__"):
+                    m, _ = self.find_method(k, dn)
+                    if m is not None:
+                        return bool(self.call_function(m, [], {}, self_obj=v))
             return True
         return bool(v)
 
@@ -447,6 +453,10 @@ class Interp:
             return list(v)
         if isinstance(v, Obj) and "__iter__" in v.attrs:
             return list(v.attrs["__iter__"])
+        if self.obj_class(v) is not None:
+            m, _ = self.find_method(self.obj_class(v), "__iter__")
+            if m is not None:
+                return list(self.call_function(m, [], {}, self_obj=v))
         if hasattr(v, "__iter__") and not isinstance(v, (Obj,)):
             return list(v)
         raise Unsupported(f"cannot iterate over {v!r} ({norm(node) if node is not None else ''})")
@@ -556,8 +566,40 @@ class Interp:
                 if name in m.assigns and m.assigns[name] is r:
                     owner = m
                     break
+            if self._mutated_at_module_level(owner, name):
+                # a module-level table filled by later module-level statements (t[k] = v, t.update(..)):
+                # evaluate those statements too, once, and keep the object
+                def mentions(st):
+                    tgt = [st.target] if isinstance(st, ast.AnnAssign) else getattr(st, "targets", [])
+                    for t in tgt:
+                        base = t
+                        while isinstance(base, ast.Subscript):
+                            base = base.value
+                        if isinstance(base, ast.Name) and base.id == name:
+                            return True
+                    return False
+
+                g = self.exec_module_level(owner.name, want=mentions)
+                return g[name]
             return self.eval(r, Env(), owner)
         raise Unsupported(f"cannot use {r!r}")
+
+    def _mutated_at_module_level(self, owner, name):
+        cache = self.__dict__.setdefault("_mut_cache", {})
+        key = (owner.name, name)
+        if key not in cache:
+            hit = False
+            for st in owner.tree.body:
+                if isinstance(st, ast.Assign):
+                    for t in st.targets:
+                        if isinstance(t, ast.Subscript):
+                            base = t
+                            while isinstance(base, ast.Subscript):
+                                base = base.value
+                            if isinstance(base, ast.Name) and base.id == name:
+                                hit = True
+            cache[key] = hit
+        return cache[key]
 
     def e_Attribute(self, e, env, mod):
         obj = self.eval(e.value, env, mod)
@@ -715,6 +757,18 @@ class Interp:
             return t.handler
         if attr.startswith("_ufl_") and attr.endswith("_") and attr[5:-1] in t.traits:
             return t.traits[attr[5:-1]]
+        if attr in ("ufl_shape", "ufl_free_indices", "ufl_index_dimensions") and obj is not None:
+            # attach_implementations_of_indexing_interface (ufl_type.py), nearest decorated class first
+            for kk in k.mro():
+                if kk.name not in tm.types or kk.ufl_type_kwargs is None:
+                    continue
+                tt = tm.get(kk.name)
+                which = tt.traits.get("inherit_shape_from_operand" if attr == "ufl_shape" else "inherit_indices_from_operand")
+                if which is not None:
+                    return self.getattr(obj.attrs["ufl_operands"][which], attr, None, None)
+                if tt.traits.get("is_scalar") or (attr != "ufl_shape" and tt.traits.get("is_index_free")):
+                    return ()
+            return NotImplemented
         if attr == "_hash" and obj is not None and t.traits.get("is_expr"):
             return obj.attrs.setdefault("_hash", None)
         return NotImplemented
@@ -1227,6 +1281,23 @@ class Interp:
     def call(self, f, args, kwargs, node, mod):
         if f is _b_isinstance:
             return self.isinstance_model(args[0], args[1], node)
+        if f is _b_len and len(args) == 1 and self.obj_class(args[0]) is not None and "__len__" not in args[0].attrs:
+            m, _ = self.find_method(self.obj_class(args[0]), "__len__")
+            if m is not None:
+                return self.call_function(m, [], {}, self_obj=args[0])
+            raise LiftRaise(f"TypeError: object of type '{self.obj_class(args[0]).name}' has no len()", node)
+        if len(args) == 1 and not kwargs and self.obj_class(args[0]) is not None:
+            dunder = {id(BUILTINS["int"]): "__int__", id(BUILTINS["float"]): "__float__", id(BUILTINS["abs"]): "__abs__", id(BUILTINS["bool"]): "__bool__", id(BUILTINS["complex"]): "__complex__"}.get(id(f))
+            if dunder is not None:
+                m, _ = self.find_method(self.obj_class(args[0]), dunder)
+                if m is not None:
+                    return self.call_function(m, [], {}, self_obj=args[0])
+                if dunder == "__bool__":
+                    return self.truth(args[0], node)
+                raise LiftRaise(f"TypeError: {dunder[2:-2]}() argument must be a number, not '{self.obj_class(args[0]).name}'", node)
+        if f in (BUILTINS["list"], BUILTINS["tuple"]) and len(args) == 1 and self.obj_class(args[0]) is not None:
+            r = self.iterate(args[0], node)
+            return r if f is BUILTINS["list"] else tuple(r)
         if isinstance(f, Closure):
             return self.call_closure(f, args, kwargs)
         if isinstance(f, BoundMethod):
